@@ -580,7 +580,7 @@ func runC15(r *Run) {
 		r.Floor("R11", "bank moves naming a staking pool in Haqq code", nPool, 3)
 	}
 	r.Rule("R10", "see C05 R2 and R6 (imported): an Ethereum transaction — a direct call of the staking or distribution precompile included — runs on a cache context that is written only when the execution succeeded, and an out-of-gas panic inside a precompile is a failed execution: the SDK's staking and distribution operations are not atomic on their own (pool transfer, then validator update, then reward-period bookkeeping), so a failed call that is not rolled back leaves exactly the half-done state the module invariants forbid")
-	r.Import("R10/C05.", []string{"R2", "R6"}, runC05)
+	r.Import("R10/C05.", []string{"R2", "R6", "R9"}, runC05)
 }
 
 func keysOfFn(m map[*ssa.Function]bool) []*ssa.Function {
